@@ -33,7 +33,7 @@ end
 """
 import re
 
-DIRECTIVES = ('closure', 'serves', 'mode', 'ret', 'requires', 'ensures', 'loop', 'entry', 'at', 'after', 'outline', 'extra',
+DIRECTIVES = ('nohints', 'closure', 'serves', 'mode', 'ret', 'requires', 'ensures', 'loop', 'entry', 'at', 'after', 'outline', 'extra',
               'attr', 'recommends', 'decreases', 'sig', 'nounwind', 'specimpl', 'replace_sig')
 
 
@@ -74,6 +74,7 @@ class Contract:
         self.attrs = []
         self.sig = None
         self.used = False
+        self.nohints = False
 
     def loop(self, k):
         return self.loops.setdefault(k, dict(iter=None, ghost=[], invariant=[], ensures=[], decreases=None,
@@ -139,7 +140,10 @@ def parse_sidecar(path):
         if d not in DIRECTIVES:
             raise SyntaxError('%s:%d: unknown directive %r' % (path, i + 1, d))
         here = i + 1
-        if d == 'serves':
+        if d == 'nohints':
+            cur.nohints = True
+            i += 1
+        elif d == 'serves':
             cur.serves = rest.split()
             i += 1
         elif d == 'mode':
@@ -210,7 +214,7 @@ def parse_sidecar(path):
             txt, i = block(i + 1)
             curf = None
             for bl in txt.split('\n'):
-                fm = re.match(r'(expr|sig|call|requires|ensures|attr):\s?(.*)$', bl)
+                fm = re.match(r'\s*(expr|sig|call|requires|ensures|attr|tail):\s?(.*)$', bl)
                 if fm:
                     curf = fm.group(1)
                     o.fields[curf] = fm.group(2)
